@@ -431,7 +431,7 @@ def run(res, only=None):
     # reference transcripts (this process, hash seed as exported by ./check)
     base = {}
     jobs = [("base", n, s) for n in SCENARIOS for s in SEEDS]
-    for j, r in zip(jobs, common.pmap(job, jobs, chunk=1)):
+    for j, r in common.good(jobs, common.pmap(job, jobs, chunk=1), res):
         base[(j[1], j[2])] = r["t"]
     nontriv = sum(1 for t in base.values() if len(set(json.dumps(x) for x in t)) > 1)
     states = len(base)
@@ -485,7 +485,7 @@ def run(res, only=None):
             for rot in range(1, 8):
                 jobs.append(("perm", n, SEEDS[0], [(x * 3 + rot) % 8 for x in range(8)]))
     outs = common.pmap(job, jobs)
-    for j, r in zip(jobs, outs):
+    for j, r in common.good(jobs, outs, res):
         trans += NCALLS
         states += 1
         if r["t"] != base[(j[1], j[2])]:
@@ -499,7 +499,7 @@ def run(res, only=None):
         jobs2 += [("snap", n, s) for n in SCENARIOS for s in SEEDS]
     if only in (None, "f"):
         jobs2 += [("globalseed", n) for n in SCENARIOS]
-    for j, r in zip(jobs2, common.pmap(job, jobs2, chunk=1)):
+    for j, r in common.good(jobs2, common.pmap(job, jobs2, chunk=1), res):
         trans += r["n"] * NCALLS
         states += r["n"]
         for sub, what in r["viol"]:
